@@ -21,7 +21,7 @@ theorem C04_inplace_complete (f : Full) (hv : f.ValidOps = true) (d : String) (p
     (h : (d, p) ∈ inplaceSpec) : inplaceOk f d p = true := by
   unfold Full.ValidOps at hv
   simp only [Bool.and_eq_true] at hv
-  exact List.all_eq_true.mp hv.2 (d, p) h
+  exact List.all_eq_true.mp hv.1.1.2 (d, p) h
 
 /-- `round(x)` passes no `ndigits`, `round(x, n)` / `divmod(x, y)` keep the user's argument -/
 theorem C04_builtins (f : Full) (hv : f.ValidOps = true) :
@@ -29,10 +29,18 @@ theorem C04_builtins (f : Full) (hv : f.ValidOps = true) :
     builtinOk f "__divmod__" "divmod" 0 true = true := by
   unfold Full.ValidOps at hv
   simp only [Bool.and_eq_true] at hv
-  have h := List.all_eq_true.mp hv.1.2
+  have h := List.all_eq_true.mp hv.1.1.1.2
   exact ⟨h ("__round__", "round", 0, true) (by simp [builtinSpec]),
          h ("__abs__", "abs", 0, false) (by simp [builtinSpec]),
          h ("__divmod__", "divmod", 0, true) (by simp [builtinSpec])⟩
+
+/-- the NaN deviation is exactly `ZeroDivisionError`: every other exception an operator raises on the
+    operand values (OverflowError, FloatingPointError, ValueError, TypeError …) reaches the caller -/
+theorem C04_other_exceptions_propagate (f : Full) (hv : f.ValidOps = true) (r : PropagateRow) (hr : r ∈ f.propagate) :
+    r.propagates = true := by
+  unfold Full.ValidOps at hv
+  simp only [Bool.and_eq_true] at hv
+  exact List.all_eq_true.mp hv.1.2 r hr
 
 /-- non-vacuity: the hand-written excerpt of the pinned tree's binary table is valid, a swapped
     `__rsub__` is not -/
